@@ -73,6 +73,10 @@ WideCastCases(from, to) ==
       P(CaseRec("cast", "Cast", <<AI("to", OnnxCode(to))>>, <<X>>, MustValue(<<T(to, X.shape, X.data)>>), <<"value", "wide_integers", from \o "->" \o to>>))
    /\ LET X == T(from, <<>>, <<WideInts[2]>>) IN
       P(CaseRec("cast", "Cast", <<AI("to", OnnxCode(to))>>, <<X>>, MustValue(<<T(to, X.shape, X.data)>>), <<"value", "wide_integers", "scalar">>))
+\* a long tensor (conversions that are split into blocks): 2 x 8193 elements, the tail non-zero
+LongCast(from, to) ==
+   LET X == T(from, <<2, 8193>>, [k \in 1..16386 |-> Fin((k % 7) + 1)]) s == SemCast(X, to) IN
+   P(CaseRec("cast", "Cast", <<AI("to", OnnxCode(to))>>, <<LowerT(X)>>, LowerA(s), <<Tag(s), "long_tensor", from \o "->" \o to>>))
 CastInvalid(from) ==
    \A to \in {"bool", "string", "f16", "c64", "c128", "bf16", "undefined"} :
       LET X == Vec(from, <<Fin(1), Fin(0)>>) IN
@@ -90,6 +94,7 @@ Emit ==
         [] st.fam = "cos" -> CosCases(st.shape)
         [] st.fam = "cosinvalid" -> CosInvalid
         [] st.fam = "cast" -> CastCases(st.from, st.to) /\ (st.from = "i64" /\ st.to = "i64" => WideCastCases("i64", "i64"))
+                               /\ (<<st.from, st.to>> \in {<<"f32", "i64">>, <<"i64", "f32">>, <<"f32", "f64">>, <<"i32", "f32">>} => LongCast(st.from, st.to))
         [] st.fam = "castinvalid" -> CastInvalid(st.from)
    /\ st' = [st EXCEPT !.done = TRUE]
 Next == Emit
